@@ -64,9 +64,11 @@ def sign_reply(a, rng, rid, doc, level, prev_rid=None):
         return bytes.fromhex("82210006deadbeef0102")
     if a["what"] == "errpdu":
         return envelope(0x0221, (0x0200, 0x0203), [(0x03, ksi.tlv(0x04, ksi.uint(0x101)) + ksi.tlv(0x05, b"error\0"))], a)
-    use_id = rid if a["id"] == "same" else (prev_rid if (a["id"] == "stale" and prev_rid) else rid + 1000)
-    if a["status"] != 0:
-        body = ksi.tlv(0x01, ksi.uint(use_id)) + ksi.tlv(0x04, ksi.uint(a["status"])) + ksi.tlv(0x05, b"request failed\0")
+    use_id = rid if a["id"] == "same" else rid + (1 << 32) if a["id"] == "wide" else (prev_rid if (a["id"] == "stale" and prev_rid) else rid + 1000)
+    st = int(a["status"], 16)
+    errmsg = ksi.tlv(0x05, b"request failed\0") if st else b""
+    if a.get("body", "full") == "empty":
+        body = ksi.tlv(0x01, ksi.uint(use_id)) + ksi.tlv(0x04, ksi.uint(st)) + errmsg
         return envelope(0x0221, (0x0200, 0x0202), [(0x02, body)], a)
     d = doc if a["hash"] == "same" else ksi.imprint(doc[0], b"some other document")
     lvl = level
@@ -74,7 +76,7 @@ def sign_reply(a, rng, rid, doc, level, prev_rid=None):
     if a["cons"] == "broken":
         case["viol"] = [rng.choice([dict(c="indexShape", at=1), dict(c="calInput", at=0), dict(c="authHash", at=0), dict(c="calShape", at=0)])]
     sig = build_for(case, rng, d, lvl)
-    body = ksi.tlv(0x01, ksi.uint(use_id)) + ksi.tlv(0x04, b"") + b"".join(sig_parts(sig, level))
+    body = ksi.tlv(0x01, ksi.uint(use_id)) + ksi.tlv(0x04, ksi.uint(st)) + errmsg + b"".join(sig_parts(sig, level))
     return envelope(0x0221, (0x0200, 0x0202), [(0x02, body)], a)
 
 
@@ -155,20 +157,24 @@ def ext_reply(a, rng, rid, src, aggr, pub_req):
         return bytes.fromhex("83210006deadbeef0102"), None
     if a["what"] == "errpdu":
         return envelope(0x0321, (0x0300, 0x0303), [(0x03, ksi.tlv(0x04, ksi.uint(0x101)) + ksi.tlv(0x05, b"error\0"))], a), None
-    use_id = rid if a["id"] == "same" else rid + 1000
-    if a["status"] != 0:
-        body = ksi.tlv(0x01, ksi.uint(use_id)) + ksi.tlv(0x04, ksi.uint(a["status"])) + ksi.tlv(0x05, b"request failed\0")
+    use_id = rid if a["id"] == "same" else rid + (1 << 32) if a["id"] == "wide" else rid + 1000
+    st = int(a["status"], 16)
+    errmsg = ksi.tlv(0x05, b"request failed\0") if st else b""
+    if a.get("body", "full") == "empty":
+        body = ksi.tlv(0x01, ksi.uint(use_id)) + ksi.tlv(0x04, ksi.uint(st)) + errmsg
         return envelope(0x0321, (0x0300, 0x0302), [(0x02, body)], a), None
     pub = pub_req if pub_req is not None else aggr + 9000 + rng.randrange(100)
     if a["pubtime"] == "other":
         pub += 1
-    field_aggr = aggr + 1 if a["aggrtime"] == "other" else aggr
-    shape_for = (aggr + 1) if (a["shape"] == "bad" or a["aggrtime"] == "other") else aggr
+    elif a["pubtime"] == "wide":
+        pub += 1 << 32
+    field_aggr = aggr + 1 if a["aggrtime"] == "other" else aggr + (1 << 32) if a["aggrtime"] == "wide" else aggr
+    shape_for = ((aggr + 1) if aggr + 1 <= pub else aggr - 1) if (a["shape"] == "bad" or a["aggrtime"] == "other") else aggr
     links = new_cal_chain(rng, src, pub, aggr, shape_aggr=shape_for, alter_rlink=(a["rlinks"] == "altered" and src.cal is not None))
     if links is None:
         return "unrealisable", None
     root_in = src.root()[0]
     inp = sigcase.flip(root_in) if a["input"] == "other" else root_in
     cal = ksi.cal_chain_tlv(pub, field_aggr, inp, links)
-    body = ksi.tlv(0x01, ksi.uint(use_id)) + ksi.tlv(0x04, b"") + ksi.tlv(0x12, ksi.uint(pub + 50)) + cal
+    body = ksi.tlv(0x01, ksi.uint(use_id)) + ksi.tlv(0x04, ksi.uint(st)) + errmsg + ksi.tlv(0x12, ksi.uint(pub + 50)) + cal
     return envelope(0x0321, (0x0300, 0x0302), [(0x02, body)], a), dict(pub=pub, links=links, inp=inp, cal=cal, root=ksi.cal_aggregate(links, inp))
